@@ -12,7 +12,7 @@ GUARD = 'DSPLIB_VERIF'
 
 CLANG_FLAGS = ['-std=c++17', '-O1', '-fno-vectorize', '-fno-slp-vectorize', '-fno-unroll-loops', '-DNDEBUG', '-D' + GUARD,
                '-fno-discard-value-names', '-S', '-emit-llvm', '-Wno-everything']
-GXX_FLAGS = ['-std=c++17', '-O2', '-DNDEBUG', '-D' + GUARD, '-fPIC', '-w']
+GXX_FLAGS = ['-std=c++17', '-O2', '-DNDEBUG', '-D' + GUARD, '-fPIC', '-w', '-pthread']
 
 
 def cache_size_define():
